@@ -60,7 +60,7 @@ def compounds(base):
     }
 
 
-CONTAINERS = ["call", "fnpos", "vec", "list", "set", "mapkey", "mapval", "recur", "method", "dotform", "target", "new", "ctor", "letinit", "loopinit", "def", "iftest", "dobody", "throwarg"]
+CONTAINERS = ["call", "fnpos", "vec", "list", "set", "mapkey", "mapval", "recur", "fnrecur", "fnrecur-do", "method", "dotform", "target", "new", "ctor", "letinit", "loopinit", "def", "iftest", "dobody", "throwarg"]
 
 
 def build_cell(container, pos, ckind):
@@ -88,6 +88,13 @@ def build_cell(container, pos, ckind):
     if container == "recur":
         names = ["a", "b", "c", "d"]
         return ("loop", [("i", ("const", 0))] + [(n, ("const", 0)) for n in names], [("if", ("prim", "<", [("local", "i"), ("const", 1)]), ("recur", [("prim", "inc", [("local", "i")])] + args), ("vec", [("local", n) for n in names]))])
+    if container in ("fnrecur", "fnrecur-do"):
+        names = ["a", "b", "c", "d"]
+        rec = ("recur", [("prim", "inc", [("local", "i")])] + args)
+        if container == "fnrecur-do":
+            rec = ("do", [T(9), rec])
+        f = ("fn", None, [(["i"] + names, None, [("if", ("prim", "<", [("local", "i"), ("const", 1)]), rec, ("vec", [("local", n) for n in names]))])])
+        return ("call", f, [("const", 0)] * 5)
     if container == "method":
         return ("icall", "method", [("local", "o")] + args)
     if container == "dotform":
